@@ -491,7 +491,7 @@ let run_cmd toks =
       let prior = nl [ 9; 9; 9 ] in
       let out = match outkind with
         | "absent" -> Absent | "regular" -> Reg prior | "regular-empty" -> Reg [] | "regular-long" -> Reg (nl [ 3; 3; 3; 3; 3; 3; 3; 3; 3; 3; 3; 3; 3; 3; 3; 3 ])
-        | "blockdev-small" -> Blk (nl [ 7; 7; 7; 7; 7 ]) | _ -> Blk (nl [ 7; 7; 7; 7; 7; 7; 7; 7; 7; 7; 7; 7; 7; 7; 7 ]) in
+        | "blockdev-small" -> Blk (nl [ 7; 7; 7; 7; 7 ]) | "blockdev-mid" -> Blk (nl [ 7; 7; 7; 7; 7; 7; 7; 7; 7 ]) | _ -> Blk (nl [ 7; 7; 7; 7; 7; 7; 7; 7; 7; 7; 7; 7; 7; 7; 7 ]) in
       let st =
         if cmd = "clone" then
           clone_cmd_model { e_flags = { c_force_create = (flag = "force" || flag = "verify-force"); c_seed_output = (flag = "seed-output");
